@@ -129,6 +129,16 @@ OpFails ==
   /\ dirty' = TRUE                    \* (ClaimFirst: the claim is given back; pinned code: the flag was never cleared)
   /\ UNCHANGED <<cur, nextv, committed, up>>
 
+\* the writability pre-check of save_sensors (os.access on the directory / the existing file) fails - the location is momentarily
+\* not writable (a directory renamed away, a read-only remount): the attempt ends there, QUIETLY.  Nothing is written, nothing is
+\* raised to the caller; the state stays marked unsaved and the schedule re-arms
+Denied ==
+  /\ At("idle") /\ sched \in {"off", "running"} /\ dirty
+  /\ faults < MaxFaults /\ faults' = faults + 1
+  /\ sched' = (IF sched = "running" THEN "armed" ELSE sched)
+  /\ lastfail' = TRUE
+  /\ UNCHANGED <<fs, buf, sv, cur, nextv, dirty, committed, up>>
+
 \* the network changes (a message is handled); while the state is being serialised this
 \* either makes the dump raise ("changed size during iteration") or goes unnoticed by it
 Mutate ==
@@ -166,7 +176,7 @@ StartUp ==
   /\ UNCHANGED <<buf, sv, nextv, sched, faults, committed, lastfail>>
 
 Next == SaveBegin \/ Open \/ Write \/ Flush \/ Fsync \/ Close \/ Ren1 \/ Ren2 \/ Rm \/ Clear
-        \/ OpFails \/ Mutate \/ StartSchedule \/ TimerFires \/ Crash(TRUE) \/ Crash(FALSE) \/ StartUp
+        \/ OpFails \/ Denied \/ Mutate \/ StartSchedule \/ TimerFires \/ Crash(TRUE) \/ Crash(FALSE) \/ StartUp
 Spec == Init /\ [][Next]_vars
 FairSpec == Spec /\ WF_vars(SaveBegin \/ Open \/ Write \/ Flush \/ Fsync \/ Close \/ Ren1 \/ Ren2 \/ Rm \/ Clear)
                  /\ WF_vars(TimerFires) /\ WF_vars(StartUp)
